@@ -6,6 +6,7 @@ import PoxModel.Proofs.PacketExtChain
 import PoxModel.Proofs.PacketExtValid
 import PoxModel.Proofs.Ndp
 import PoxModel.Proofs.Dhcp
+import PoxModel.Proofs.IPv6Ext
 /-!
 # C14 — packet headers survive build → bytes → parse with valid lengths and checksums
 
@@ -781,5 +782,64 @@ example : (⟨3, 7, 4⟩ : Eap).Fits := by constructor <;> decide
 theorem variant_head (raw : Bytes) : ripParseV XCfg.head.ripUnsigned raw = ripParse raw ∧
     eapParseV XCfg.head.eapBody raw = eapParse raw ∧ ∀ h, ripHdrV XCfg.head.ripUnsigned h = ripHdr h :=
   ⟨rfl, rfl, fun _ => rfl⟩
+
+/-! ## IPv6 extension headers (`Model/IPv6Ext.lean`: the four registered classes, `ipv6.hdr`'s serialisation of the chain
+(repair D48) and the `while nht != NO_NEXT_HEADER` loop of `ipv6.parse`) -/
+
+/-- **ipv6_ext_roundtrip**: every linked chain of well-formed extension headers — any number, any mix of Hop-by-Hop,
+Routing, Destination-Options and Fragment headers, any bodies — followed by any payload of a protocol that is not itself
+an extension header: `hdr` emits a whole number of 8-octet units (RFC 8200 §4), and the parse loop run on those bytes with
+the payload behind them (as `ipv6.parse` runs it: type from the fixed header, length = the payload length `hdr` wrote)
+gives back exactly the chain, the payload's protocol, the offset at which the payload starts, and — through the slice
+`raw[offset:offset+length]` the code takes — exactly the payload (unless the chain ends in NO_NEXT_HEADER, 59, which says
+that nothing follows: then the parser keeps no payload).  Packing the parsed chain reproduces the bytes
+(the chain is the same object list). -/
+theorem ipv6_ext_roundtrip (exts : List IPv6Ext.Ext) (t p : Nat) (payload : Bytes)
+    (hw : ∀ e ∈ exts, e.WF) (hl : IPv6Ext.Linked t exts p) (hp : IPv6Ext.isExt p = false) :
+    ∃ packed len, IPv6Ext.hdrExts exts payload.length = some (packed, packed.length + payload.length) ∧
+      packed.length % 8 = 0 ∧
+      IPv6Ext.parse (packed ++ payload) t (packed.length + payload.length) = .ok exts p packed.length len ∧
+      IPv6Ext.payloadOf (packed ++ payload) (.ok exts p packed.length len) = (if p = 59 then none else some payload) := by
+  obtain ⟨packed, hk, h8⟩ := IPv6Ext.packExts_wf exts hw
+  have hlen : exts.length ≤ packed.length := by
+    clear hl hp h8
+    induction exts generalizing packed with
+    | nil => simp
+    | cons e es ih =>
+      obtain ⟨b, hb, hb8, _⟩ := IPv6Ext.pack_wf e (hw e (by simp))
+      simp only [IPv6Ext.packExts, hb] at hk
+      cases hr : IPv6Ext.packExts es with
+      | none => simp [hr] at hk
+      | some rest =>
+        simp [hr] at hk; subst hk
+        have := ih (fun x hx => hw x (by simp [hx])) rest hr
+        simp [List.length_append]; omega
+  obtain ⟨len, hrun, hge⟩ := IPv6Ext.parseLoop_chain exts packed t p [] payload [] ((packed ++ payload).length + 1)
+    (min (packed.length + payload.length) (packed ++ payload).length) hw hl hp hk
+    (by simp [List.length_append]; omega) (by simp [List.length_append])
+  refine ⟨packed, len, by simp [IPv6Ext.hdrExts, hk, Nat.add_comm], h8, ?_, ?_⟩
+  · simpa [IPv6Ext.parse] using hrun
+  · simp only [IPv6Ext.payloadOf]
+    split
+    · rfl
+    · exact congrArg some (IPv6Ext.slice_tail packed payload len hge)
+
+/-- a Hop-by-Hop header (6-octet body), a Fragment header and a Destination-Options header (14-octet body) in front of a
+    UDP payload satisfy the hypotheses -/
+def exExts : List IPv6Ext.Ext :=
+  [⟨0, 44, 6, [1, 4, 0, 0, 0, 0]⟩, ⟨44, 60, 0, [0, 0, 8, 0, 0, 0, 9]⟩, ⟨60, 17, 14, List.replicate 14 7⟩]
+example : (∀ e ∈ exExts, e.WF) ∧ IPv6Ext.Linked 0 exExts 17 ∧ IPv6Ext.isExt 17 = false := by
+  refine ⟨?_, ⟨rfl, rfl, rfl, rfl⟩, by decide⟩
+  intro e he
+  simp only [exExts, List.mem_cons, List.not_mem_nil, or_false] at he
+  rcases he with rfl | rfl | rfl <;> constructor <;> decide
+example : IPv6Ext.parse ((IPv6Ext.packExts exExts).getD [] ++ [1, 2, 3]) 0 35 = .ok exExts 17 32 26 := by decide
+
+/-- the code as it stands: `length -= len(o)` subtracts the length OCTET of a normal header, not the bytes it occupies, so
+    the loop's `length` over-estimates what is left; the payload slice is right in `ipv6_ext_roundtrip` only because the
+    buffer ends with the payload.  With bytes behind the IPv6 datagram (an Ethernet trailer) the slice takes some of them: -/
+example : IPv6Ext.payloadOf ([17, 0, 1, 4, 0, 0, 0, 0] ++ [1, 2, 3] ++ [0xEE, 0xEE, 0xEE, 0xEE, 0xEE, 0xEE, 0xEE, 0xEE, 0xEE])
+    (IPv6Ext.parse ([17, 0, 1, 4, 0, 0, 0, 0] ++ [1, 2, 3] ++ [0xEE, 0xEE, 0xEE, 0xEE, 0xEE, 0xEE, 0xEE, 0xEE, 0xEE]) 0 11)
+    = some [1, 2, 3, 0xEE, 0xEE, 0xEE, 0xEE, 0xEE, 0xEE, 0xEE, 0xEE] := by decide
 
 end Pox.C14
